@@ -91,8 +91,18 @@ def correspondence(ck, binpath, n):
         for t in c["tags"]:
             kinds[KINDS[t["k"]]] = kinds.get(KINDS[t["k"]], 0) + 1
         ck.count_case(("corr", c["text"]), nontrivial=bool(c["tags"]) and bool(c["d0"]))
-    for i in failing or []:
+    for n_probed, i in enumerate(failing or []):
         c = cases[i]
+        # the model and the implementation disagree on this program: judge it (and probe-statement variants of it) with the
+        # property oracle, and shrink; a failing verdict is a concrete violation
+        if n_probed < 8:
+            prc, pout, perr = ck.run_bin(binpath, ["probe", "--text-json", json.dumps(c["text"]), "--corpus", os.path.join(VERIF, "corpus", "C19")], timeout=600)
+            for pl in pout.splitlines():
+                if pl.strip():
+                    v = json.loads(pl)
+                    ck.violation(v["signature"], "%s in program %r (%s; the correspondence disagreed on %r)" % (
+                        v["what"], v["text"], v.get("derived_from", "the disagreeing program"), c["text"][:300]),
+                        {"text": v["text"], "what": v["what"], "original": c["text"]})
         ck.tie_broken("model/implementation disagreement on suppression (actions, file sets, is_file_diagnostic_code_disabled or "
                       "diagnose_file with/without comments) for program %r" % c["text"], json.dumps({k: c[k] for k in ("text", "tags", "acts", "fdis", "fen", "d0", "d1")})[:4000])
     ck.cov["distribution"]["corr_programs"] = len(cases)
@@ -160,7 +170,10 @@ def main(argv):
              "or without a final line end) carrying diagnostics of 8 codes at generated positions, combined with generated "
              "disable / disable-next-line / disable-line / enable comments (own line, trailing, multi-line comment groups; no list, "
              "one or several codes incl. unknown names); each program is analysed by diagnose_file with the comments and with them "
-             "neutralised; non-trivial = the program has at least one @diagnostic tag and at least one diagnostic without the "
+             "neutralised; a share of the programs places a line-level comment before a block-level / file-level disable with "
+             "diagnostics of the disabled code before, between and after the two comments; the scope of `disable` is judged as the "
+             "whole enclosing block (whole file at top level), also before the comment; when the correspondence disagrees on a "
+             "program the oracle judges that program and probe-statement variants of it and shrinks a failing one; non-trivial = the program has at least one @diagnostic tag and at least one diagnostic without the "
              "comments; distinct by program text. The hand-written corpus (corpus/C19) runs first.",
         assumptions=["the parser's comment / block extents are taken as given (read off the real syntax tree)",
                      "correspondence and search are sampled (they validate the model and look for replays; the theorems carry the all-inputs claim)",
